@@ -15,7 +15,8 @@
 (*     uj (struct with pointer-receiver UnmarshalJSON that records its     *)
 (*     input), ut (struct with pointer-receiver UnmarshalText)             *)
 (*   tags: none | ren (json:"jn") | dash (json:"-") | str (json:",string") *)
-(*         | omit (json:",omitempty") | emb (anonymous struct field)       *)
+(*         | omit (json:",omitempty") | omitstr (json:",omitempty,string")  *)
+(*         | emb (anonymous struct field)                                  *)
 (*                                                                         *)
 (* DOCUMENTS [j |-> "null"|"t"|"f"], [j |-> "n", c |-> number class],      *)
 (*         [j |-> "s", c |-> string class], [j |-> "a", e |-> <<J>>],       *)
@@ -41,9 +42,9 @@ LeafKinds == NumKinds \cup {"bool", "str", "iface", "num", "raw", "bytes", "uj",
 \* ---- number literal classes (concrete literal owned by the harness) ----
 \*  z 0 | nz -0 | p7 7 | p9 9 (only as a prior value) | p12 12 | n3 -3 | n200 -200 | p200 200 | p300 300 | p40000 40000 | p70000 70000
 \*  p3e9 3000000000 | p5e9 5000000000 | p2_63 2^63 | n2_63 -2^63 | p2_64 2^64 | f1_5 1.5 | f1_0 1.0 | e1e2 1e2
-\*  f1e39 1e39 | big 1e400
+\*  f1e39 1e39 | big 1e400 | f1e21 1e21 | f1e20 1e20 | f1em6 0.000001 | f1em7 0.0000001 (the notation thresholds of printed floats)
 IntLits == {"z", "nz", "p7", "p12", "n3", "n200", "p200", "p300", "p40000", "p70000", "p3e9", "p5e9", "p2_63", "n2_63", "p2_64"}
-NumClasses == IntLits \cup {"f1_5", "f1_0", "e1e2", "f1e39", "big"}
+NumClasses == IntLits \cup {"f1_5", "f1_0", "e1e2", "f1e39", "big", "f1e21", "f1e20", "f1em6", "f1em7"}
 \* smallest signed / unsigned width that holds the integer literal (99 = none)
 SBits(c) == CASE c \in {"z", "nz", "p7", "p12", "n3"} -> 8 [] c \in {"n200", "p200", "p300"} -> 16 [] c \in {"p40000", "p70000"} -> 32
               [] c \in {"p3e9", "p5e9", "n2_63"} -> 64 [] OTHER -> 99
@@ -147,9 +148,11 @@ Cands(T) ==
         IF f.tag = "dash" THEN {}
         ELSE IF f.tag = "emb" THEN
              LET S == EmbStruct(f.t) IN
-             {[d |-> 1, path |-> <<i, j>>, jn |-> S.f[j].jn, tagged |-> S.f[j].tag = "ren", q |-> S.f[j].tag = "str", t |-> S.f[j].t]
+             {[d |-> 1, path |-> <<i, j>>, jn |-> S.f[j].jn, tagged |-> S.f[j].tag = "ren", q |-> S.f[j].tag \in {"str", "omitstr"},
+               omit |-> S.f[j].tag \in {"omit", "omitstr"}, t |-> S.f[j].t]
                 : j \in {x \in 1..Len(S.f) : S.f[x].tag \notin {"dash", "emb"}}}
-        ELSE {[d |-> 0, path |-> <<i>>, jn |-> f.jn, tagged |-> f.tag = "ren", q |-> f.tag = "str", t |-> f.t]}
+        ELSE {[d |-> 0, path |-> <<i>>, jn |-> f.jn, tagged |-> f.tag = "ren", q |-> f.tag \in {"str", "omitstr"},
+               omit |-> f.tag \in {"omit", "omitstr"}, t |-> f.t]}
   IN UNION {Top(i) : i \in 1..Len(T.f)}
 Dominant(T) ==
   LET C == Cands(T)
@@ -180,6 +183,8 @@ Select(fs, key, o) ==
 KeyConv(key, kind) ==
   CASE kind \in {"str", "txt"} -> key
     [] key = "12" -> "12"
+    [] key = "9" -> "9"
+    [] key = "1" -> "1"
     [] key = "01" -> "1"
     [] key = "-1" -> IF kind \in {"int", "i8"} THEN "-1" ELSE "bad"
     [] key = "300" -> IF kind = "int" THEN "300" ELSE "bad"
@@ -198,12 +203,12 @@ QuotableField(t) == Quotable(t) \/ (t.k = "ptr" /\ Quotable(t.e))
 DecQuoted(T, J, old, o) ==
   CASE J.j = "x" -> Hard
     [] J.j = "null" -> Dec(T, J, old, o)
-    [] J.j = "s" -> IF J.c = "sctl" THEN Hard
-                    ELSE LET in == Inner(J.c) IN
+    [] J.j \in {"s", "qs"} -> IF J.j = "s" /\ J.c = "sctl" THEN Hard
+                    ELSE LET in == IF J.j = "qs" THEN J.d ELSE Inner(J.c) IN
                          IF in.j = "none" THEN Hard
                          ELSE LET B == IF T.k = "ptr" THEN T.e ELSE T
                                   fit == CASE in.j = "null" -> TRUE
-                                           [] in.j = "t" -> B.k = "bool"
+                                           [] in.j \in {"t", "f"} -> B.k = "bool"
                                            [] in.j = "n" -> B.k \in NumKinds \cup {"num"}
                                            [] in.j = "s" -> B.k = "str"
                                            [] OTHER -> FALSE
